@@ -19,7 +19,7 @@ tier: B
 backend: cadical
 unwind: 10
 unwind_thorough: 12
-bound: list length 1..4, elements of any key, no placeholder
+bound: list length 1..4, elements of any key, no placeholder [thorough tier: lengths up to 5]
 funcs: spif_dlinked_list_dup, spif_dlinked_list_item_dup, spif_dlinked_list_new, spif_dlinked_list_del, spif_dlinked_list_done
 */
 /*@unit
@@ -30,7 +30,7 @@ tier: B
 backend: cadical
 unwind: 10
 unwind_thorough: 12
-bound: list length 1..4 with at least one NULL placeholder
+bound: list length 1..4 with at least one NULL placeholder [thorough tier: lengths up to 5]
 funcs: spif_dlinked_list_dup, spif_dlinked_list_item_dup
 */
 /*@unit
@@ -52,7 +52,7 @@ tier: B
 backend: cadical
 unwind: 10
 unwind_thorough: 12
-bound: vector length 1..4, ascending keys
+bound: vector length 1..4, ascending keys [thorough tier: lengths up to 5]
 funcs: spif_dlinked_list_vector_dup, spif_dlinked_list_item_dup, spif_dlinked_list_vector_new
 */
 /*@unit
@@ -76,7 +76,7 @@ unwind: 10
 unwind_thorough: 12
 objbits: 10
 timeout: 600
-bound: map size 1..4, all key and value keys
+bound: map size 1..4, all key and value keys [thorough tier: lengths up to 5]
 funcs: spif_dlinked_list_map_dup, spif_dlinked_list_item_dup, spif_dlinked_list_map_new, spif_objpair_dup
 */
 /*@unit
@@ -99,7 +99,7 @@ tier: B
 backend: cadical
 unwind: 10
 unwind_thorough: 12
-bound: list length <= 4 (the content is irrelevant); at least one argument NULL
+bound: list length <= 4 (the content is irrelevant); at least one argument NULL [thorough tier: lengths up to 5]
 funcs: spif_dlinked_list_comp
 */
 /*@unit
@@ -110,7 +110,7 @@ tier: B
 backend: cadical
 unwind: 10
 unwind_thorough: 12
-bound: two lists of length <= 4; recursion depth <= 8
+bound: two lists of length <= 4; recursion depth <= 8 [thorough tier: lengths up to 5]
 funcs: spif_dlinked_list_comp
 */
 #include "vprelude.h"
